@@ -73,6 +73,28 @@ if r is not None:
         out["unknown"] = "no exception"
     except BaseException as e:
         out["unknown"] = exc(e)
+# construction entry points aimed at things that are not there: each either works or raises ValueError
+import os
+probes = [
+    ("file_missing", lambda: Reclass.from_config_file(root, "no-such-config.yml")),
+    ("file_missing_verbose", lambda: Reclass.from_config_file(root, "no-such-config.yml", True)),
+    ("file_missing_verbose_kw", lambda: Reclass.from_config_file(root, "sub/none.yml", verbose=True)),
+    ("root_missing", lambda: Reclass.from_config_file(os.path.join(root, "no-such-dir"), "reclass-config.yml")),
+    ("root_missing_verbose", lambda: Reclass.from_config_file(os.path.join(root, "no-such-dir"), "reclass-config.yml", True)),
+    ("file_is_dir", lambda: Reclass.from_config_file(root, "nodes")),
+    ("file_is_dir_verbose", lambda: Reclass.from_config_file(root, "nodes", True)),
+    ("ctor_root_missing", lambda: Reclass(inventory_path=os.path.join(root, "no-such-dir"))),
+    ("ctor_root_is_file", lambda: Reclass(inventory_path=os.path.join(root, "nodes", "probe-file"))),
+    ("dict_root_missing", lambda: Reclass.from_config(Config.from_dict(os.path.join(root, "no-such-dir"), {}))),
+    ("dict_bad_type", lambda: Config.from_dict(root, {"ignore_class_notfound_regexp": 5})),
+]
+out["ctor_probes"] = []
+for label, fn in probes:
+    try:
+        fn()
+        out["ctor_probes"].append([label, "ok"])
+    except BaseException as e:
+        out["ctor_probes"].append([label, exc(e)])
 result = json.dumps(out)
 "#;
 
